@@ -17,14 +17,14 @@ CASE_TIMEOUT = 900
 WARMUP = True
 NPROC = 12
 RULE = ('each case = one random history (length 1-12) on a fresh world+orbit of one kind in {CPL, CPL spin-synchronous, CTL, layered Maxwell (io_simple), layered Andrade}, '
-        'scalar or array valued (fixed length per history), drawn from 24 operation kinds (orbit.set_state / set_eccentricity / set_orbital_frequency / set_orbital_period / '
+        'scalar or array valued (fixed length per history), drawn from 27 operation kinds (orbit.set_state / set_eccentricity / set_orbital_frequency / set_orbital_period / '
         'set_semi_major_axis by instance, name or index; world.set_state with any non-empty subset; individual setters and property assignments; set_fixed_q / set_fixed_dt; '
         'layer temperature; orbit time); non-trivial = at least one step was applied and compared against the fresh oracle; distinct by history')
 ASSUMPTIONS = ['derived quantities must agree to 1e-10 relative (same floating-point operations on the same state are expected to agree to rounding)',
                'the canonical sequence of the oracle ends with an orbital-frequency change so that everything is recomputed']
-OPS = ['orb_e', 'orb_P', 'orb_n', 'orb_a', 'orb_eP', 'orb_set_e', 'orb_set_n', 'orb_set_P', 'orb_set_a', 'w_spin', 'w_obl', 'w_e', 'w_P', 'w_n', 'w_spin_obl', 'w_e_obl', 'w_all',
+OPS = ['h_spin', 'h_obl', 'h_spin_obl', 'orb_e', 'orb_P', 'orb_n', 'orb_a', 'orb_eP', 'orb_set_e', 'orb_set_n', 'orb_set_P', 'orb_set_a', 'w_spin', 'w_obl', 'w_e', 'w_P', 'w_n', 'w_spin_obl', 'w_e_obl', 'w_all',
        'set_spin', 'set_obl', 'prop_obl', 'fixq', 'fixdt', 'temp', 'time']
-KINDS = ['cpl', 'cpl_sync', 'ctl', 'layered', 'layered_andrade']
+KINDS = ['cpl', 'cpl_sync', 'ctl', 'layered', 'layered_andrade', 'dual_cpl', 'dual_cpl_sync']
 
 
 def gen_cases(tier, seed):
@@ -36,6 +36,16 @@ def mk(kind):
     from TidalPy.structures import build_world, build_from_world
     from TidalPy.structures.orbit import PhysicsOrbit
     star = build_world('55cnc')
+    if kind.startswith('dual'):
+        # dual-body dissipation: a tidally active, non-synchronous host (not the star) and a tidally active satellite
+        base = build_world('earth_simple')
+        tid = lambda q: {'model': 'global_approx', 'fixed_q': q, 'use_ctl': False, 'eccentricity_truncation_lvl': 4, 'max_tidal_order_l': 2, 'obliquity_tides_on': True}
+        star = build_from_world(star, new_config={'tides_on': False})
+        host = build_from_world(base, new_config={'force_spin_sync': False, 'type': 'simple_tidal', 'mass': 5.972e24, 'slices': 100, 'tides_on': True, 'tides': tid(40.)}, new_name='verif_host')
+        w = build_from_world(base, new_config={'force_spin_sync': kind.endswith('sync'), 'type': 'simple_tidal', 'mass': 7.3e22, 'radius': 1.7e6, 'slices': 100, 'tides_on': True, 'tides': tid(125.)}, new_name='verif_sat')
+        orb = PhysicsOrbit(star, tidal_host=host, tidal_bodies=w)
+        w._verif_host = host
+        return star, w, orb
     if kind.startswith('layered'):
         w = build_world('io_simple')
         if kind == 'layered_andrade':
@@ -68,6 +78,18 @@ def snap(w, o, kind):
     if kind.startswith('layered'):
         for l in w:
             d['H_' + l.name] = l.tidal_heating if hasattr(l, 'tidal_heating') else None
+    host = getattr(w, '_verif_host', None)
+    if host is not None:
+        d.update({'host_H': host.tidal_heating_global, 'host_dUdM': host.dUdM, 'host_dUdw': host.dUdw, 'host_dUdO': host.dUdO,
+                  'host_e': host.eccentricity, 'host_n': host.orbital_frequency})
+        try:
+            d['host_dspin'] = host.calc_spin_derivative()
+        except Exception:
+            d['host_dspin'] = None
+        k = host.global_love_by_orderl
+        d['host_k2'] = None if k is None else k.get(2)
+        uf = host.tides.unique_tidal_frequencies
+        d['host_freqs'] = None if uf is None else np.sort(np.concatenate([np.atleast_1d(np.asarray(v, dtype=float)).ravel()[:1] for v in uf.values()]))
     return {k_: arr(v) for k_, v in d.items()}
 
 
@@ -104,7 +126,7 @@ def eval_case(c):
 
     star, w, o = mk(kind)
     sync = w.force_spin_sync
-    st = {'o': val(0.05, 0.3), 'e': val(0.02, 0.2), 'n': days2rads(val(5., 20.)), 's': days2rads(val(3., 9.))}
+    st = {'o': val(0.05, 0.3), 'e': val(0.02, 0.2), 'n': days2rads(val(5., 20.)), 's': days2rads(val(3., 9.)), 'hs': days2rads(val(0.4, 2.)), 'ho': val(0.05, 0.3)}
     layered = kind.startswith('layered')
 
     def prime(w_, o_, st_):
@@ -117,6 +139,9 @@ def eval_case(c):
             w_.set_fixed_dt(st_['dt'])
         if 'time' in st_:
             o_.time = st_['time']
+        host_ = getattr(w_, '_verif_host', None)
+        if host_ is not None:
+            host_.set_state(spin_frequency=st_['hs'], obliquity=st_['ho'])
         kw = {} if w_.force_spin_sync else {'spin_frequency': st_['s']}
         w_.set_state(obliquity=st_['o'], **kw)
         o_.set_state(w_, orbital_frequency=st_['n'], eccentricity=st_['e'])
@@ -139,7 +164,14 @@ def eval_case(c):
         e, P, sp, ob = val(0.01, 0.3), val(2., 60.), val(1., 40.), val(0., 0.5)
         q, dt, T = float(rng.uniform(5, 500)), float(rng.uniform(1, 1e3)), float(rng.uniform(1300, 1750))
         sig = [w, w.name, 0][int(rng.integers(3))]
-        if op == 'orb_e': o.set_state(sig, eccentricity=e); st['e'] = e
+        host = getattr(w, '_verif_host', None)
+        if op in ('h_spin', 'h_obl', 'h_spin_obl'):
+            if host is None: return False
+            hs, ho = days2rads(val(0.4, 2.)), val(0.0, 0.4)
+            if op == 'h_spin': host.set_state(spin_frequency=hs); st['hs'] = hs
+            elif op == 'h_obl': host.set_obliquity(ho); st['ho'] = ho
+            else: host.set_state(spin_frequency=hs, obliquity=ho); st['hs'] = hs; st['ho'] = ho
+        elif op == 'orb_e': o.set_state(sig, eccentricity=e); st['e'] = e
         elif op == 'orb_P': o.set_state(sig, orbital_period=P); st['n'] = days2rads(P)
         elif op == 'orb_n': o.set_state(sig, orbital_frequency=days2rads(P)); st['n'] = days2rads(P)
         elif op == 'orb_a':
@@ -215,7 +247,7 @@ def eval_case(c):
                          'data': {'history': hist, 'quantity': k, 'state': {kk: (vv.tolist() if hasattr(vv, 'tolist') else vv) for kk, vv in st.items()}}})
             break
         # functional API at the same state (global approximation worlds, scalars)
-        if not layered and n_arr is None and got['H'] is not None:
+        if not layered and not kind.startswith('dual') and n_arr is None and got['H'] is not None:
             from TidalPy.toolbox.quick_tides import quick_tidal_dissipation
             try:
                 kw = dict(rheology='ctl' if kind.startswith('ctl') else 'cpl', eccentricity=st['e'], obliquity=st['o'], orbital_frequency=st['n'], spin_frequency=st['s'],
